@@ -43,10 +43,10 @@ CHECKS.update({
         technique="contract-based deductive verification (Verus) of the severity table; bounded executable-contract check (exhaustive over the stated finite space) of totals and headings on the real code"),
     "C13": bounded("Relational check: the same findings set rendered from fresh HashMap instances (different hash seeds), permuted insertion orders of patterns and of (file, lines) vectors, and child processes must give byte-identical text equal to the canonical rendering.", "HashMap iteration order / per-process hash seeds", "§9 C11-C13"),
     "C14": dict(level="other",
-        text="Verus (unit dispatch): the default lists get_all_optimizations / get_all_vulnerabilities / get_all_qa are PROVED to contain every variant of their enum (without a configuration file all patterns run), and analyze_for_* are PROVED to hand each pattern to the detector documented for it (variant -> detector table written from the documentation; the detector must be defined in the module file named after the pattern). BOUNDED for the rest: executable contract of str_to_* over every documented name (scraped from docs/, README.md, Solstat.toml on each run) x casings, junk names rejected; precedence --path > toml path > ./contracts and exact pattern selection observed through hook H1 and the report of the real binary; unknown name => non-zero exit and no report.",
+        text="Verus (unit dispatch): the default lists get_all_optimizations / get_all_vulnerabilities / get_all_qa are PROVED to contain every variant of their enum (without a configuration file all patterns run), and analyze_for_* are PROVED to hand each pattern to the detector documented for it (variant -> detector table written from the documentation; the detector must be defined in the module file named after the pattern). The name tables str_to_optimization / str_to_vulnerability / str_to_qa are PROVED (unit names) to return, for every name whose lower-cased form is documented, the pattern documented under that name, with lemmas `every documented name selects its own pattern` and `every pattern has a documented name`. BOUNDED for the rest: executable contract of str_to_* over every documented name (scraped from docs/, README.md, Solstat.toml on each run) x casings, junk names rejected (the `unknown name fails` clause cannot be stated in Verus); precedence --path > toml path > ./contracts and exact pattern selection observed through hook H1 and the report of the real binary; unknown name => non-zero exit and no report.",
         design="§9 C14",
-        note="Trusted: Verus/Z3, vstd; detectors are external_body stubs in unit dispatch. BOUNDED, never counted as proved: str_to_* (match on lower-cased string literals is outside Verus' subset), Opts::new and main (clap, toml, process exit status) -- exercised through the built binary over the generated cases only.",
-        technique="contract-based deductive verification (Verus) of get_all_* and the analyze_for_* dispatch; bounded executable-contract check of the name tables and of the binary for everything clap/toml/process-level"),
+        note="Trusted: Verus/Z3, vstd; detectors are external_body stubs in unit dispatch. str::to_lowercase is an uninterpreted function in unit names. BOUNDED, never counted as proved: the must-fail clause for unknown names, Opts::new and main (clap, toml, process exit status) -- exercised through the built binary over the generated cases only.",
+        technique="contract-based deductive verification (Verus) of str_to_*, get_all_* and the analyze_for_* dispatch; bounded executable-contract check of the name tables and of the binary for everything clap/toml/process-level"),
     "C02": dict(level="other",
         text="Verus: get_line_number is PROVED to return 1 + the number of line feeds that precede the offset, for every text and every offset that is not itself a line feed (unit lines, over a trusted model of the regex crate for the pattern \\n); analyze_for_optimization / _vulnerability / _qa are PROVED to return exactly { line_of(start of l) | l reported by the pattern's detector } (unit dispatch: parse, dispatch, by-value iteration of the location set, pt's Loc::start, BTreeSet insertion). Which node's location each detector reports is part of the proved detector contracts of C05-C07/C09 (loc_P). BOUNDED: get_line_number EXHAUSTIVE over all texts of <= 7 characters over {a, LF, CR, e-acute} x all admissible offsets (109,227 cases) + seeded long texts (this is also the only check of the regex model itself); analyze_for_* line sets over programs x 15 layouts x 30 detectors; c02-loc (wrong-node location) for the detectors not under a Verus contract.",
         design="§9 C02",
